@@ -288,6 +288,10 @@ func c04Signature(r *zsim.Run) {
 			url += "?" + sendQuery
 		}
 		req := httptest.NewRequest(sendMethod, url, bytes.NewReader([]byte(sendBody)))
+		chunked := o.Intn(4) == 0
+		if chunked {
+			req.ContentLength = -1 // Transfer-Encoding: chunked: the length is unknown when the gate runs
+		}
 		if tamper != "header-missing" {
 			req.Header.Set(httpx.ContentSecurity, fmt.Sprintf("fingerprint=%s; secret=%s; signature=%s", fp, secret, sig))
 		}
@@ -300,7 +304,7 @@ func c04Signature(r *zsim.Run) {
 		if tamper == "method" && sendMethod != http.MethodPatch && method == http.MethodPatch {
 			want = !strict // a PATCH-signed request replayed as POST
 		}
-		r.Logf("req %s %s?%s tamper=%s off=%d -> %d ran=%v (want %v)", sendMethod, sendPath, sendQuery, tamper, off, rec.Code, ran != before, want)
+		r.Logf("req %s %s?%s tamper=%s off=%d chunked=%v -> %d ran=%v (want %v)", sendMethod, sendPath, sendQuery, tamper, off, chunked, rec.Code, ran != before, want)
 		if want != (ran != before) {
 			if want {
 				r.Failf("valid-signature-rejected", "a correctly signed %s request (timestamp offset %ds, tolerance %ds, strict=%v) was rejected with %d", sendMethod, off, tol, strict, rec.Code)
